@@ -1,5 +1,7 @@
 import IsoVerif.Driver.Core
 import IsoVerif.Driver.Gen
+import IsoVerif.Gen.LoopsOps
+import IsoVerif.Gen.LoopsCigarOps
 import IsoVerif.Driver.C19
 import IsoVerif.Driver.C17
 import IsoVerif.Driver.C18
@@ -32,6 +34,8 @@ def prefixOps (p : String) (l : List (String × Handler)) : List (String × Hand
 
 def allOps : List (String × Handler) :=
   prefixOps "Gen" GenOps.ops
+  ++ prefixOps "Gen" GenLoopsOps.ops
+  ++ prefixOps "Gen" GenLoopsCigarOps.ops
   ++ prefixOps "C19" C19.ops
   ++ prefixOps "C17" C17.ops
   ++ prefixOps "C18" C18.ops
